@@ -28,6 +28,12 @@ var apiFiles = []treeFile{
 		"@component(\"~c\", {n: who})@slot{{ who.upper() }}@end@end@end"},
 	{Name: "bad", Src: "PARTIAL-OUTPUT-MARKER {{ who }}\n{{ items[0] / 0 }} after"},
 	{Name: "err", Src: "<custom>error page</custom>"},
+	{Name: "components/boom", Src: "PARTIAL-OUTPUT-MARKER in component {{ n / 0 }}"},
+	{Name: "layouts/boom", Src: "PARTIAL-OUTPUT-MARKER in layout @reserve(\"content\") {{ items[0] / 0 }}"},
+	{Name: "bad-in-component", Src: "PARTIAL-OUTPUT-MARKER before @component(\"~boom\", {n: 1}) after"},
+	{Name: "bad-in-layout", Src: "@use(\"~boom\")@insert(\"content\")PARTIAL-OUTPUT-MARKER insert@end"},
+	{Name: "bad-at-start", Src: "{{ items[0] / 0 }} PARTIAL-OUTPUT-MARKER never"},
+	{Name: "bad-in-loop", Src: "@each(x in items)PARTIAL-OUTPUT-MARKER {{ x }} {{ 6 / (3 - x) }}@end"},
 	{Name: "setvar", Src: "{{ total = 3 }}set:{{ total }}"},
 	{Name: "getvar", Src: "get:{{ total }}"},
 }
